@@ -57,10 +57,9 @@ Definition check (c : case) : N :=
       else match c_impl c with
            | IOther => 3
            | IRes v =>
-               if negb (spec_C18 en t (pres_of v) && key_ok (tok var) v) then 3
+               if negb (spec_C18 en t (pres_of v) && spec_C18_var en (tok var) t v) then 3
                else if negb (vres_eqb v (parse_variable en (c_sent c))) then 2 else 0
            end
-      end
   | SrcRaw fmt l r =>
       if negb (all_ws l && all_ws r && str_eqb (raw_prefix ++ fmt) (c_sent c)) then 4
       else if negb (ires_eqb (c_impl c) (c_impl2 c)) then 3    (* outer white space changed the result *)
